@@ -194,7 +194,7 @@ def oracle(sc, impl, aligned):
                 if write and puts and (not m or puts[0][2] != sc['borrowers'][m[0]]['table'][str(n)][3]):
                     out['C19'].append(('verbatim', 'borrowed module %d written with text %r which is not the first matching borrower\'s' % (
                         n, puts[0][2])))
-            if s in ('failed', 'missing') and matching(n) and n in by_name and f['err'].get(n, [None])[0] != 'put':
+            if s in ('failed', 'missing') and matching(n) and n in by_name and (f['err'].get(n) or [None])[0] != 'put':
                 out['C19'].append(('delivered-but-failed', 'module %d was delivered by a borrower but still counts as %s' % (n, s)))
     # ---- C08 (any scenario): a module already parsed under another request is never fetched again
     registered, current = {}, None
